@@ -2,6 +2,8 @@ import QuiverModel.Core.Types.Codec
 import QuiverModel.Core.Soundness.Unify
 import QuiverModel.Core.Soundness.FieldAccess
 import QuiverModel.Core.Soundness.Sequence
+import QuiverModel.Core.Soundness.Infer
+import QuiverModel.Core.RefSem.Parse
 /-
 qm_c01 — driver for the C01 guards model and the result-inhabitation oracle.
 
@@ -23,6 +25,14 @@ Requests (one S-expression list per line; see Core/Types/Codec.lean for `<type>`
                                               of its chains (`compile_sequence`)  → nil | no-nil
   (field <type id> <name>)                    `get_field_by_name`              → ok <index> <result type id> (<field type id>…) | non-tuple | not-found | fuel-out
                                               (result type id = `union_type_ids` of the field types on the current table)
+  (infer (names (<string> <name>)…) (env (<var> <type id>)…) <ok|nil> <program>)
+                                              `QM.Soundness.inferSeq` on the current table: the fragment
+                                              of the inference proved sound by `infer_sound_fragment`
+                                              (`<program>` in the exchange syntax of Core/RefSem/Parse.lean;
+                                              `ok|nil` = the type of the value flowing into the first chain)
+                                                                               → ok <type id> [<reference value>] | outside
+                                              (the reference value — `evalProgram` on the ELABORATED
+                                              program — is printed when `env` is empty)
 Bindings are printed sorted by (interned) name. Everything else answers `bad-request`.
 -/
 open QM QM.Types QM.Soundness
@@ -147,6 +157,26 @@ def c01Step (s : C01State) (req : List Sx) : C01State × String :=
     match t.asNat, V.ofSx v with
     | some t, some v => (s, inhAnswer s.table t v)
     | _, _ => (s, "bad-request")
+  | [.list [.atom "infer", .list (.atom "names" :: ns), .list (.atom "env" :: es), .atom flowKind, prog]] =>
+    let names := listMapM (fun x => match x with
+      | Sx.list [.atom n, k] => k.asNat.map (fun k => (n, k))
+      | _ => none) ns
+    let env := listMapM (fun x => match x with
+      | Sx.list [.atom n, k] => k.asNat.map (fun k => (n, k))
+      | _ => none) es
+    match names, env, QM.RefSem.parseProgram prog with
+    | some names, some env, some cs =>
+      let c : Ctx := ⟨{ fuel := guardFuel s.table }, s.table, fun n => (List.lookup n names).getD 0, []⟩
+      let ft := if flowKind = "ok" then okTy c else nilTy c
+      match ft with
+      | some ft =>
+        match inferSeq c env ft cs with
+        | some (t, cs') =>
+          if env.isEmpty then (s, s!"ok {t} " ++ QM.RefSem.renderRes (QM.RefSem.evalProgram 400 cs'))
+          else (s, s!"ok {t}")
+        | none => (s, "outside")
+      | none => (s, "outside")
+    | _, _, _ => (s, "bad-request")
   | _ => (s, "bad-request")
 
 def main : IO Unit := sxLoop c01Step {}
